@@ -16,8 +16,10 @@ LEVEL = 'exploration'
 RULE = ('exhaustive core: every string of length <= L over the 16-symbol syntax alphabet '
         '[" \\ / * CR LF { [ ] ( ) # a SPACE : +] x all 2^7 boolean tokenizer options (L=3 quick, '
         'L=4 thorough) x ALL 2^(n-1) chunkings, plus '
-        'delivery as lines, as a file object and with interleaved empty chunks; random: documents assembled from '
-        'KV1/FGD/VMT fragments then mutated, random options, 12-50 random chunkings each (splits inside CR-LF, escapes, '
+        'delivery as lines, as a file object and with interleaved empty chunks; focused cores: six small construct-specific alphabets (comments, strings/escapes, CR-LF/brackets, parens, '
+        'directives) with strings up to length 5-6 (quick) / 6-8 (thorough) and all chunkings (all 1- and 2-cut chunkings '
+        'beyond length 6); random: documents assembled from '
+        'KV1/FGD/VMT fragments then mutated, random options, EVERY single cut position plus 12-50 random chunkings each (splits inside CR-LF, escapes, '
         '//, */); Keyvalues.parse on the same documents plus flag-bearing KV1 under all its boolean options. '
         'Non-trivial = the delivery has >= 2 chunks with a cut inside a multi-character construct (CRLF, escape, //, '
         '/*, */, quoted string, bare word); distinct = distinct (text, options).')
@@ -180,13 +182,67 @@ def exhaustive(run, shard, thorough: bool) -> None:
     run.extra['exhaustive_core'] = True
 
 
+FOCUSED = [
+    # (name, alphabet, option overrides that are always on, options that vary, max length quick/thorough)
+    ('comments', ['/', '*', 'a', '\n'], {'allow_star_comments': True}, ['preserve_comments'], 6, 8),
+    ('comments-off', ['/', '*', 'a', '\n'], {'allow_star_comments': False}, ['preserve_comments'], 5, 6),
+    ('strings', ['"', '\\', 'n', '\r', '\n', 'a'], {}, ['allow_escapes'], 5, 6),
+    ('crlf-brackets', ['\r', '\n', '[', ']', 'a', ' '], {}, ['string_bracket'], 5, 6),
+    ('parens', ['(', ')', '\n', '\r', 'a'], {}, ['string_parens'], 5, 6),
+    ('directives', ['#', 'a', ':', '+', ' ', '{'], {}, ['colon_operator', 'plus_operator'], 5, 6),
+]
+
+
+def cut_chunkings(text: str, max_all: int = 6) -> List[List[str]]:
+    """All chunkings for short texts; all 1-cut and 2-cut chunkings beyond that (state is carried across a boundary
+    by at most one pushed-back character plus flags, so two cuts exercise every pairwise interaction)."""
+    n = len(text)
+    if n <= max_all:
+        return chunkings_all(text)
+    out = [[text[:i], text[i:]] for i in range(1, n)]
+    out += [[text[:i], text[i:j], text[j:]] for i in range(1, n) for j in range(i + 1, n)]
+    return out
+
+
+def focused_cores(run, shard, thorough: bool) -> None:
+    base = dict(zip(OPT_NAMES, (False, True, True, False, False, False, False)))
+    idx = 0
+    evals = nontriv = 0
+    for name, alphabet, fixed, varying, lq, lt in FOCUSED:
+        L = lt if thorough else lq
+        optsets = []
+        for bits in itertools.product((False, True), repeat=len(varying)):
+            o = dict(base)
+            o.update(fixed)
+            o.update(dict(zip(varying, bits)))
+            optsets.append(o)
+        for n in range(1, L + 1):
+            for tup in itertools.product(alphabet, repeat=n):
+                idx += 1
+                if not mine(idx, shard):
+                    continue
+                text = ''.join(tup)
+                chunkings = cut_chunkings(text)
+                nt = any(cut_inside_construct(text, c) for c in chunkings)
+                for opts in optsets:
+                    ref, steps = trace(text, opts, n, counting=True)
+                    check_trace_sanity(run, text, opts, ref, steps, 'focused-' + name)
+                    compare_deliveries(run, text, opts, ref, [('chunks', c) for c in chunkings], 'focused-' + name)
+                    evals += 1
+                    nontriv += 1 if nt else 0
+        run.count('focused_core_' + name, 1)
+    run.case_bulk(evals, nontriv)
+    run.count('focused_text_x_options', evals)
+    run.extra['focused_cores'] = [{'name': f[0], 'alphabet': [repr(c) for c in f[1]], 'max_len': f[5] if thorough else f[4]} for f in FOCUSED]
+
+
 KV_FRAGMENTS = [
     '"key" "value"\n', 'bare word\n', '"blk"\n{\n', '}\n', '"a" "b" [flag]\n', '"a" "b" [!flag]\n',
     '"blk" [x360]\n{\n"k" "v"\n}\n', '"blk" [!x360]\n{\n}\n', '// comment\n', '/* star */', '"multi\nline" "v"\n',
     '"esc\\n\\t\\"q" "\\\\"\n', '\r\n', '\r', '\n', '{', '}', '"', '[', ']', '(', ')', '(paren args)', '#include "x"\n',
     '#base\n', 'key:value', 'a+b', '=', ',', ' ', '\t', '﻿', '@PointClass base(Targetname) = name : "desc" [\n',
     'spawnflags(flags) =\n[\n1: "x" : 0\n]\n', '"$basetexture" "a/b\\c"\n', 'LightmappedGeneric\n{\n', '"%k" 1 // c\n',
-    '**/', '/*/', '*/', '/', '\\', '"unterminated', '[unterminated', '(unterminated', '"a"\\\n"b"\n', 'x"y"z\n',
+    '**/', '/*/', '*/', '/', '\\', '"unterminated', '/* a * b */', '/** doc\n * line\n */', '/* x **/', '/***/', '// c * /\n', '/* "q" */', '[unterminated', '(unterminated', '"a"\\\n"b"\n', 'x"y"z\n',
 ]
 
 
@@ -227,6 +283,10 @@ def random_docs(run, shard, thorough: bool) -> None:
         dl: List[Tuple[str, Any]] = [('lines', text.splitlines(keepends=True)), ('file', io.StringIO(text, newline='')),
                                      ('chars', list(text))]
         nt = False
+        # every single cut position (exhaustive over the delivery schedules with two chunks)
+        for cut in range(1, len(text)):
+            dl.append(('cut', [text[:cut], text[cut:]]))
+        nt = nt or len(text) > 3
         for _ in range(n_chunk):
             ch = random_chunks(rng, text, 12)
             nt = nt or cut_inside_construct(text, [c for c in ch if c])
@@ -309,12 +369,13 @@ def main(run, shard=(0, 1)) -> None:
                         'Tokenizer._get_token': (tk, 'Tokenizer._get_token')})
     probe.start()
     exhaustive(run, shard, thorough)
-    probe.report(run)  # stop the probe early: it only has to show reach, and costs time on hot functions
+    probe.report(run)
+    focused_cores(run, shard, thorough)  # stop the probe early: it only has to show reach, and costs time on hot functions
     random_docs(run, shard, thorough)
     kv_flag_docs(run, shard, thorough)
     run.sample({'text': '"a\r', 'chunks': ['"a', '\r'], 'opts': '0010000'}, 'exhaustive')
     probe.check_reached(run)
-    run.require('exhaustive_text_x_options', 'deliveries_compared', 'kv_parse_calls')
+    run.require('exhaustive_text_x_options', 'focused_text_x_options', 'deliveries_compared', 'kv_parse_calls')
 
 
 def replay(run, data) -> None:
